@@ -22,10 +22,11 @@ type baseCockpit struct {
 	w       io.Writer
 	tasks   []*task.Task
 	mu      sync.Mutex
-	spinMu  sync.Mutex
 	spinner *spinner.Spinner
-	charSet int
-	closeCh chan bool
+	// "Finished ..." lines waiting to be printed by the spinner's redraw goroutine
+	finished []string
+	charSet  int
+	closeCh  chan bool
 }
 
 type cockpitOutputDecorator struct {
@@ -33,56 +34,68 @@ type cockpitOutputDecorator struct {
 	t *task.Task
 }
 
-func (b *baseCockpit) start() *spinner.Spinner {
-	if b.spinner != nil {
-		return b.spinner
-	}
-
+// newSpinner creates the indicator. The WithColor option already starts its redraw goroutine.
+func (b *baseCockpit) newSpinner() *spinner.Spinner {
 	s := spinner.New(spinner.CharSets[b.charSet], frame, spinner.WithColor("yellow"))
 	s.Writer = b.w
 	s.PreUpdate = func(s *spinner.Spinner) {
 		tasks := make([]string, 0)
 		b.mu.Lock()
+		// the line has just been erased: print what finished since the last frame above the indicator
+		for _, msg := range b.finished {
+			fmt.Fprint(b.w, msg)
+		}
+		b.finished = nil
 		for _, v := range b.tasks {
 			tasks = append(tasks, v.Name)
 		}
-		defer b.mu.Unlock()
+		b.mu.Unlock()
 		sort.Strings(tasks)
 		s.Suffix = " Running: " + strings.Join(tasks, ", ")
 	}
-	s.Start()
 
 	return s
 }
 
 func (b *baseCockpit) add(t *task.Task) {
 	b.mu.Lock()
-	defer b.mu.Unlock()
-
 	b.tasks = append(b.tasks, t)
-
-	if b.spinner == nil {
-		b.spinner = b.start()
-		go func() {
-			<-b.closeCh
-			b.spinner.Stop()
-		}()
+	first := b.spinner == nil
+	if first {
+		b.spinner = b.newSpinner()
 	}
+	s := b.spinner
+	b.mu.Unlock()
+
+	if !first {
+		return
+	}
+
+	// b.mu must not be held here: the redraw goroutine holds the spinner's lock while its PreUpdate
+	// hook takes b.mu, and Start takes the spinner's lock
+	s.Start()
+	go func() {
+		<-b.closeCh
+		b.mu.Lock()
+		s.FinalMSG = strings.Join(b.finished, "")
+		b.finished = nil
+		b.mu.Unlock()
+		s.Stop()
+	}()
 }
 
 func (b *baseCockpit) remove(t *task.Task) {
 	b.mu.Lock()
+	defer b.mu.Unlock()
+
 	for k, v := range b.tasks {
 		if v == t {
 			b.tasks = append(b.tasks[:k], b.tasks[k+1:]...)
+			break
 		}
 	}
-	s := b.spinner
-	// b.mu must not be held while calling into the spinner: its redraw goroutine holds the spinner's
-	// own lock while it takes b.mu in PreUpdate
-	b.mu.Unlock()
 
-	if s == nil {
+	if b.spinner == nil {
 		// nothing was ever added: the task was skipped or failed before its output started
 		return
 	}
@@ -92,11 +105,10 @@ func (b *baseCockpit) remove(t *task.Task) {
 		mark = aurora.Red("✗")
 	}
 
-	b.spinMu.Lock()
-	defer b.spinMu.Unlock()
-	s.FinalMSG = fmt.Sprintf("%s Finished %s in %s\r\n", mark, aurora.Bold(t.Name), t.Duration())
-	s.Restart()
-	s.FinalMSG = ""
+	// The line is handed to the redraw goroutine instead of being printed through Stop/Start of the
+	// spinner: a Stop that arrives while that goroutine is waiting for the spinner's lock makes it exit
+	// with the lock held, and the following Start (and with it the task that finished) blocks for ever.
+	b.finished = append(b.finished, fmt.Sprintf("%s Finished %s in %s\r\n", mark, aurora.Bold(t.Name), t.Duration()))
 }
 
 func newCockpitOutputWriter(t *task.Task, w io.Writer, close chan bool) *cockpitOutputDecorator {
